@@ -154,3 +154,23 @@ PROPS["C12"] = {
     "trusted_base": ["kani 0.68.0 + cbmc 6.11", "tools/gen_coercion.py (reads the match arms)"],
     "explanation": "per-column coercion kernel of the Parquet batch path",
 }
+
+PROPS["C03"] = {
+    "verus": ["codegen_guard"],
+    "kani": ["codegen_guard"],
+    "level": "proof",
+    "level_text": "Unbounded Verus proof, by structural induction over the real IRNode, that CodeGenerator::contains_join (sliced from /repo each run) returns true for every plan containing an operator that does not distribute over input partitions (Join, JoinFlatMap, Antijoin, Aggregate) — i.e. partitioned multi-worker execution is only ever used on distributing plans. Kani executes the real function (including the real Iterator::any) on 12 concrete trees (BOUNDED companion; supplies replayable counterexamples). The DD executions themselves and the partitioning function are outside both verifiers: this decides the guard, the necessary condition on which C03 rests.",
+    "level_note": "trusted: Verus+Z3, Kani+CBMC; assumed contract for Iterator::any on the Union arm; partition_data_for_worker assigns each tuple to exactly one worker; union of per-partition results equals the single-worker result for distributing plans (relational algebra, not checked)",
+    "technique": "Verus postcondition on a recursive function extracted from /repo each run (erasure-checked, one listed substitution); Kani harnesses on concrete plan trees injected into a scratch copy",
+    "aux_failure": "violation",
+    "functions_under_contract": ["src/code_generator/mod.rs: CodeGenerator::contains_join", "src/ir/mod.rs: enum IRNode (verbatim)"],
+    "assumptions": [
+        "Iterator::any(f) is false only if f returned false on every element (assumed contract, Union arm; exercised concretely by two Kani trees)",
+        "partition_data_for_worker puts every tuple in exactly one partition (HashMap + DefaultHasher: CBMC does not finish)",
+        "for plans built only from Scan/HnswScan/Map/Filter/Union/Compute/FlatMap/Distinct the union of per-partition answers equals the single-worker answer (algebraic fact about those operators; their DD implementations are not verified)",
+        "termination of contains_join is not proved (exec_allows_no_decreases_clause); partial correctness",
+        "the recursive (fixpoint) execution path and IQLEngine::set_num_workers plumbing are not covered",
+    ],
+    "trusted_base": ["verus 0.2026.09.13 + z3", "kani 0.68.0 + cbmc 6.11"],
+    "explanation": "partition-safety guard of multi-worker execution",
+}
